@@ -275,6 +275,21 @@ impl Engine for C06 {
             b
         };
         let mut out = Vec::new();
+        // a fragment of a record, starting at EVERY byte offset, appended as a line of its own;
+        // the bucket has a non-ASCII key and metadata so that multi-byte characters land on
+        // every column of the damaged line
+        {
+            let ukeys = vec!["ключ-данных-é😀".to_string(), "foreign".to_string()];
+            let recs = vec![
+                RecSpec { metadata: Some(serde_json::json!({"заметка": "привет мир 😀 — ünïcödé", "n": 1})), ..simple_rec(1, false, Via::LibSync) },
+                RecSpec { metadata: Some(serde_json::json!(["ещё", "один"])), ..simple_rec(2, false, Via::LibAsync) },
+            ];
+            let len: usize = recs.iter().map(|r| reffmt::encode_record(&to_rec(&ukeys, r), EmitStyle { ascii: false, reversed: false }).len()).sum();
+            for off in 0..len {
+                let after = if off % 5 == 0 { vec![simple_rec(50, false, if off % 2 == 0 { Via::LibSync } else { Via::LibAsync })] } else { vec![] };
+                out.push(Case { keys: ukeys.clone(), recs: recs.clone(), damages: vec![BDamage::AppendLineFrom(off)], after });
+            }
+        }
         for (bi, recs) in buckets.iter().enumerate() {
             // the file length is known by construction: encode with the reference writer
             let len: usize = recs.iter().map(|r| reffmt::encode_record(&to_rec(&keys, r), EmitStyle { ascii: false, reversed: false }).len()).sum();
@@ -290,7 +305,7 @@ impl Engine for C06 {
         out
     }
     fn exhaustive_note(&self, tier: Tier) -> String {
-        format!("{} buckets of 2-4 records: every cut length and every single-bit flip of the file, each followed by a library append", tier.pick(4, 12))
+        format!("{} buckets of 2-4 records: every cut length and every single-bit flip of the file, each followed by a library append; one non-ASCII bucket with a record fragment starting at every byte offset appended as a line", tier.pick(4, 12))
     }
     fn random_cases(&self, tier: Tier) -> u32 {
         tier.pick(2000, 50000)
@@ -386,5 +401,7 @@ fn bdamage_name(d: &BDamage) -> &'static str {
         BDamage::DuplicateRange { .. } => "duplicate_fragment",
         BDamage::StripNewline(_) => "strip_newline",
         BDamage::AppendRaw(_) => "torn_tail",
+        BDamage::AppendLineFrom(_) => "duplicated_fragment_as_line",
+        BDamage::BecomeDir => "become_dir",
     }
 }
